@@ -19,7 +19,7 @@ RULE = ("batches of 1..12 designs evaluated with 2..6 worker threads under a con
         "call per design; one row per design equal to the final object. non-trivial = schedule in which >=2 designs were inside the "
         "objective/store at the same time; distinct = distinct grant-order signature")
 ASSUMPTIONS = ["interleavings are explored at gate and statement granularity; nothing inside one statement or inside C code holding "
-               "the GIL can be produced", "no injected evaluation failures here (C06 covers failures in workers)"]
+               "the GIL can be produced", "the retry protocol itself is judged by C06; here batches with transient failures are only compared serial vs parallel (outcome, calls per design, failed list)"]
 SHARDS = {"quick": 4, "thorough": 16}
 WATCHDOG = {"quick": 900, "thorough": 3000}
 
@@ -31,6 +31,8 @@ def cases(ctx):
                         "gates": ["obj", "obj+sync", "obj+sync+sql", "sync+sql", "sync+slowtxn"][(i // 3) % 5]}
     for i in range(ctx.pick(24, 3300)):
         yield "lines", {"seed": ctx.subseed("l", i), "store": ["dummy", "sqlite"][i % 2]}
+    for i in range(ctx.pick(24, 2400)):
+        yield "flaky", {"seed": ctx.subseed("f", i), "policy": pol[i % len(pol)]}
     for i in range(ctx.pick(12, 960)):
         yield "nsga2", {"seed": ctx.subseed("n", i), "policy": pol[i % len(pol)],
                         "algo": ["nsga2", "epsmoea", "nsga2", "omopso", "smpso", "psoga"][i % 6]}
@@ -296,6 +298,80 @@ def run_case(ctx, name, params):
                     os.unlink(path + ext)
                 except OSError:
                     pass
+    elif name == "flaky":
+        # designs whose objective fails transiently a few times (never five in a row): the serial evaluation of such a batch
+        # completes with every design evaluated, so the parallel one must, too -- whatever the workers' failures look like
+        # when they are interleaved (C06 judges the retry protocol itself; here only serial/parallel equivalence of the outcome)
+        n = r.randint(1, 3)
+        B = r.randint(3, 9)
+        workers = r.randint(2, 5)
+        fn = make_fn(r, n, 1)
+        fails = [r.choice([0, 1, 2, 2, 3, 4]) for _ in range(B)]
+        idx = {}
+        seen = {}
+        lk = threading.Lock()
+
+        def script(call_no, vec, individual):
+            with lk:
+                k = seen.get(individual.id, 0)
+                seen[individual.id] = k + 1
+            if k < fails[idx[individual.id]]:
+                return (RuntimeError if (k + idx[individual.id]) % 2 else TimeoutError)("scripted transient failure")
+            return None
+        results = []
+        for mode in ("serial", "parallel"):
+            S = None
+            eg = None
+            if mode == "parallel":
+                S = sched.Scheduler(params["seed"], params["policy"], expected=min(workers, B))
+                eg = lambda c: S.gate("obj_enter")
+            p_ = hooks.make_problem(n=n, m=1, fn=fn, bounds=[[-1.0, 1.0]] * n, script=script, entry_gate=eg)
+            vrng.install(vrng.SeededRandom(params["seed"]))
+            a_ = DummyAlgorithm(p_)
+            a_.options["max_processes"] = workers if mode == "parallel" else 1
+            batch = [Individual([r.uniform(-1, 1) for _ in range(n)]) for _ in range(B)]
+            idx.clear()
+            seen.clear()
+            for d, b in enumerate(batch):
+                idx[b.id] = d
+            err = None
+            aj = hooks.ActiveJobs()
+            try:
+                a_.evaluate(batch)
+            except BaseException as e:
+                err = e
+            finally:
+                if S is not None:
+                    S.shutdown()
+                drained = aj.wait_idle(90.0)
+                aj.restore()
+            if not drained:
+                ctx.count("cases_abandoned_workers_of_aborted_batch_still_running")
+                return
+            by_id = {}
+            for c in p_.calls:
+                by_id.setdefault(c.ind_id, []).append(c)
+            results.append((err, [str(b.state) for b in batch], [len(by_id.get(b.id, [])) for b in batch], len(p_.failed),
+                            [list(b.costs) == list(fn(b.vector)) for b in batch]))
+        ctx.count("flaky_batch_pairs")
+        (es, ss, cs_, fs, okc_s), (ep, sp, cp, fp, okc_p) = results
+        wit = lambda: {"failures_per_design": fails, "workers": workers, "policy": params["policy"],
+                       "serial": {"exception": repr(es), "states": ss, "calls": cs_, "failed_logged": fs},
+                       "parallel": {"exception": repr(ep), "states": sp, "calls": cp, "failed_logged": fp}}
+        if es is not None:
+            ctx.count("flaky_serial_reference_aborted")
+            return
+        if sum(1 for f in fails if f) >= 2:
+            ctx.nontrivial(("flaky", tuple(fails), workers, params["policy"]))
+        if ep is not None:
+            ctx.violation("parallel/flaky/exception_only_in_parallel", "serial evaluation of a batch with transient failures completes, "
+                          "parallel evaluation raised %r" % ep, wit())
+            return
+        if sp != ss or cp != cs_ or fp != fs or not all(okc_p):
+            ctx.violation("parallel/flaky/differs_from_serial", "states / objective calls per design / failed list differ from serial "
+                          "evaluation of the same batch with the same transient failures", wit())
+            return
+        ctx.count("cases")
     else:
         setup = insitu.random_setup(r, algo=params.get("algo", "nsga2"), max_n=3, max_m=2, max_N=8, max_G=4, families=["unit", "mixed"])
         workers = r.randint(2, 4)
